@@ -83,7 +83,7 @@ def check_frames(sx, air, lri, lrt, tag=""):
 
 
 def conversation(sx, tech, brs, lri, lrt, did, nad, shapes, faults,
-                 rwt=8, window=40):
+                 rwt=8, window=40, ex_timeout=EX_TIMEOUT):
     """one conversation: activate both sides, n application exchanges in
     each direction under a fault script, release.
 
@@ -136,7 +136,7 @@ def conversation(sx, tech, brs, lri, lrt, did, nad, shapes, faults,
         air.arm_faults(skip=1)      # the DEP_REQ that ends the target's listen()
         for k in range(n):
             try:
-                I['recv'].append(ini.exchange(A[k], EX_TIMEOUT))
+                I['recv'].append(ini.exchange(A[k], ex_timeout))
             except nfc.clf.CommunicationError as e:
                 I['end'] = type(e).__name__
                 break
@@ -195,6 +195,12 @@ def conversation(sx, tech, brs, lri, lrt, did, nad, shapes, faults,
             sx.check(False, "fault-free-exchange-failed:initiator:" + I['end'])
         if T['end'] != "None" or len(T['recv']) != n:
             sx.check(False, "fault-free-exchange-failed:target:" + str(T['end']))
+    elif cls == 'single' and ex_timeout < EX_TIMEOUT:
+        # short deadline: one lost frame may legitimately exhaust it
+        if I['end'] not in (None, "TimeoutError"):
+            sx.check(False, "single-fault-not-recovered:initiator:" + why)
+        if I['end'] == "TimeoutError":
+            sx.reach("deadline-expired")
     elif cls == 'single':
         if I['end'] is not None:
             sx.check(False, "single-fault-not-recovered:initiator:" + why)
@@ -260,6 +266,9 @@ def partitions(tier):
                 if quick and (a in (M_1, MM) or b in (M_1, MM)):
                     continue
                 conv("one:%s:%d.%d:f%d" % (tech, ia, ib, k), [[a + b]], k, tech=tech)
+    if quick:
+        conv("one:106A:0.0:f3", [[ONE + ONE]], 3)
+        conv("one:212F:3.3:f3", [[M1 + M1]], 3, tech='212F')
     # ---- conversations beyond the PNI wrap
     two = [[M1 + M1, ONE + M1], [ONE + ONE, M1 + ONE], [MM1 + ONE, ONE + MM1],
            [M + M, M + M]]
@@ -270,11 +279,14 @@ def partitions(tier):
     if quick:
         conv("three:106A:f1", [[ONE + M1, M1 + ONE, M + M]], 1)
     else:
+        conv("two:106A:1:f3", [two[1]], 3)
+        conv("two:212F:0:f3", [two[0]], 3, tech='212F')
         conv("three:106A:f2", [[ONE + M1, M1 + ONE, M + M]], 2)
+        conv("three:212F:f2", [[M1 + ONE, ONE + ONE, ONE + M1]], 2, tech='212F')
         conv("four:106A:f2", [[ONE + ONE, M1 + ONE, ONE + M1, M + M]], 2)
         conv("four:212F:f1", [[M1 + M1, M1 + M1, MM1 + ONE, ONE + MM1]], 1, tech='212F')
         conv("four:106A:f3", [[ONE + ONE, ONE + ONE, ONE + ONE, ONE + ONE]], 3)
-    # ---- other LR values (longer frames), bit rate change by PSL
+    # ---- other LR values (longer frames)
     for lri in range(4):
         for lrt in range(4):
             if (lri, lrt) == (0, 0):
@@ -283,17 +295,27 @@ def partitions(tier):
                 continue
             shapes = [[M + M], [M1 + M1]] if quick else \
                 [[M + M], [M1 + M1], [M_1 + MM1], [MM + ONE]]
-            conv("lr:%d.%d:f1" % (lri, lrt), shapes, 1, lri=lri, lrt=lrt,
+            conv("lr:%d.%d:f%d" % (lri, lrt, 1 if quick else 2), shapes,
+                 1 if quick else 2, lri=lri, lrt=lrt,
                  tech='106A' if (lri + lrt) & 1 else '212F')
+    # ---- bit rate change by PSL (424F framing = 212F framing)
     for tech, brs in (('106A', 1), ('106A', 2), ('212F', 2), ('212F', 1)):
-        conv("psl:%s:brs%d:f1" % (tech, brs), [[M1 + M1]], 1 if quick else 2,
-             tech=tech, brs=brs)
+        conv("psl:%s:brs%d:f%d" % (tech, brs, 1 if quick else 2), [[M1 + M1]],
+             1 if quick else 2, tech=tech, brs=brs)
     # ---- DID and NAD in use
     conv("did:106A:f1", [[ONE + ONE], [M + M], [M1 + M2]], 1, did=1)
     conv("nad:106A:f1", [[ONE + ONE], [M + M], [M1 + M1]], 1, nad=2)
     if not quick:
         conv("did:212F:f2", [[ONE + ONE], [M + M], [M1 + M2]], 2, did=7, tech='212F')
+        conv("nad:212F:f2", [[M + M], [M1 + M1], [MM1 + ONE]], 2, nad=9, tech='212F')
         conv("did+nad:106A:f1", [[M + M], [M1 + M2]], 1, did=3, nad=5, lri=1, lrt=2)
+    # ---- a deadline that one lost frame exhausts (RWT 77.33 ms, 77.5 ms)
+    conv("deadline:106A:f1", [[ONE + ONE], [M1 + M1]], 1 if quick else 2,
+         ex_timeout=0.0775)
+    # ---- response waiting times other than the default
+    conv("rwt0:106A:f1", [[M1 + ONE]], 1, rwt=0)
+    if not quick:
+        conv("rwt14:212F:f2", [[ONE + M1]], 2, rwt=14, tech='212F', ex_timeout=30.0)
     return parts
 
 
@@ -301,13 +323,71 @@ MUST_REACH = ["script:clean", "script:single", "script:multi", "completed:clean"
               "completed:single", "completed:multi", "failed:multi",
               "chaining:initiator", "chaining:target", "pni-wrap",
               "framing:106A", "framing:212F", "framing:424F", "did", "nad",
+              "deadline-expired",
               "fault:req-INF:lose", "fault:req-INF:corrupt",
+              "fault:req-INF+:lose", "fault:req-INF+:corrupt",
               "fault:rsp-INF:lose", "fault:rsp-INF:corrupt",
-              "fault:req-ACK:lose", "fault:rsp-ACK:corrupt",
-              "fault:req-ATN:lose", "fault:req-NAK:corrupt"]
+              "fault:rsp-INF+:lose", "fault:rsp-INF+:corrupt",
+              "fault:req-ACK:lose", "fault:req-ACK:corrupt",
+              "fault:rsp-ACK:lose", "fault:rsp-ACK:corrupt",
+              "fault:req-ATN:lose", "fault:rsp-ATN:corrupt",
+              "fault:req-NAK:corrupt", "fault:req-NAK:lose"]
 BOUNDS = {
-    "quick": "",
-    "thorough": "",
+    "quick": "real Initiator and real Target, both brought up by their real "
+    "activate() (ATR_REQ/ATR_RES, PSL where the bit rate changes, first "
+    "DEP_REQ through ListenStub), all payload bytes symbolic; every fault "
+    "script over {deliver, lose, corrupt} per request and per response frame "
+    "with <= 2 faults among the first 40 frames (<= 3 for two short "
+    "conversations), decided lazily per frame actually sent (recovery frames "
+    "ATN/NAK/retransmissions included); one exchange with payload lengths "
+    "{1, miu, miu+1, 2miu+1}^2 at LR 64 both ways, 106A (start byte) and 212F "
+    "framing; conversations of 2 and 3 exchanges (PNI wraps) with <= 2 / 1 "
+    "faults; LR pairs (0,3) (1,2) (2,1) (3,0) (3,3) with lengths miu, miu+1 "
+    "and 1 fault; PSL to 212F/424F; DID=1 and NAD=2 with 1 fault; RWT code "
+    "0 and 8; one variant with a 77.5 ms deadline (RWT 77.33 ms)",
+    "thorough": "as quick with <= 3 faults for all 36 length pairs "
+    "{1, miu-1, miu, miu+1, 2miu, 2miu+1}^2 of one exchange in both framings, "
+    "2..4 exchanges with <= 2 faults (<= 3 for two of them), all 15 other "
+    "LR pairs with 4 length shapes and <= 2 faults, PSL with <= 2 faults, "
+    "DID/NAD/DID+NAD also at 212F with <= 2 faults, RWT code 14",
 }
-OUTSIDE = []
-ASSUMPTIONS = []
+OUTSIDE = [
+    "faults on the activation frames (ATR, PSL) and on the first DEP_REQ, "
+    "which the driver consumes inside listen() before Target.activate() "
+    "returns; faults on the final RLS_REQ/RLS_RES",
+    "more than 3 faults per conversation, faults after the 40th frame "
+    "(property: 'sampled beyond' - not sampled here)",
+    "timeout extension (RTOX) - Target.exchange never requests one; active "
+    "communication mode; 424F as polling technology (424F is reached by PSL)",
+    "payloads longer than 2*miu+1 (three frames) and conversations longer "
+    "than 4 exchanges; LR other than 64 with more than 2 faults",
+    "a corrupted frame that the receiver's CRC check does not detect",
+    "target-side deadline expiry (target exchange() time-out is 30 s and "
+    "checked not to bind); the initiator retrying after a reported failure",
+]
+ASSUMPTIONS = [
+    "env.air Air: lose -> the sender-side initiator exchange() raises "
+    "nfc.clf.TimeoutError after the virtual clock advanced by the time-out, "
+    "the target never sees a lost request; corrupt -> the receiver's "
+    "exchange() raises nfc.clf.TransmissionError (driver CRC/parity report), "
+    "which Target.send_res_recv_req answers with silence; transmission "
+    "itself takes no virtual time; initiator and target stacks alternate "
+    "strictly",
+    "env.air ListenStub/IniClf.sense written from rcs380.listen_dep and "
+    "ContactlessFrontend.sense/listen: ATR_REQ -> the ATR_RES handed in, "
+    "PSL_REQ -> PSL_RES and bit rate switch, DID filter, first DEP_REQ "
+    "returned in LocalTarget.dep_req; target exchange(frame, timeout=0) "
+    "transmits and returns None; field off -> BrokenLinkError",
+    "a protocol step is one call of Initiator.send_dep_req_recv_dep_res "
+    "(observed through a subclass that only counts calls); 'single fault per "
+    "step' = at most one faulty frame among all frames of that step, "
+    "recovery frames included",
+    "LR is the maximum length of the transport data field CMD0 CMD1 PFB "
+    "[DID] [NAD] payload (LEN = LR+1 <= 255), so frame length <= LR + 1 "
+    "(+1 start byte at 106A)",
+    "os.urandom inside nfc.dep returns a fixed pattern (NFCID3)",
+    "the application on the target side answers every received payload with "
+    "the next reply and stops when exchange() returns None or raises; the "
+    "initiator releases the target (real deactivate()) after its last "
+    "exchange or first failure, then switches the field off",
+]
